@@ -373,6 +373,11 @@ def run(chk):
             f.write('#!/bin/sh\nexec %s %s\n' % (hexe, vlib.REPO))
         os.chmod(wv, 0o755)
         vcases = []
+        cp = os.path.join(vlib.VERIF, 'corpus', 'vmslot.txt')
+        if os.path.exists(cp):
+            for l in open(cp):
+                if l.strip() and not l.startswith('#'):
+                    vcases.append('k%d vmslot %s' % (len(vcases), l.strip()))
         for i in range(10000 if thorough else 300):
             font = rng.choice(('Padauk.ttf', 'charis_r_gr.ttf', 'Scheherazadegr.ttf', 'Annapurnarc2.ttf'))
             rep = S.repertoire(vlib.REPO, font)
